@@ -13,7 +13,7 @@ def rand_dna(rng, n):
 def make_reference(rng, n_genes=1, coding_p=0.6, sec_p=0.15, nf_p=0.15,
                    min_exons=1, max_exons=5, exon_len=(20, 120), intron_len=(15, 80),
                    isoforms=(1, 1), n_chroms=1, strands=(1, -1), id_offset=0,
-                   short_exon_p=0.0):
+                   short_exon_p=0.0, overlap_p=0.0):
     """Genes laid out one after another on n_chroms chromosomes. The first transcript of each gene
     is built by writing an ORF into the genome; further isoforms reuse the genome as it is and are
     coding only if their spliced sequence happens to carry an ATG..stop ORF (never edited)."""
@@ -40,21 +40,42 @@ def make_reference(rng, n_genes=1, coding_p=0.6, sec_p=0.15, nf_p=0.15,
         specs.append((gi, chrom, g, rng.choice(strands), exons))
         per_chrom[chrom].append(gi)
     pos = {}
+    noncoding_first = set()
     for chrom, gis in per_chrom.items():
         parts = [rand_dna(rng, rng.randint(5, 30))]
         p = len(parts[0])
+        prev = None
         for gi in gis:
             glen = specs[gi][2]
+            if overlap_p and prev is not None and rng.random() < overlap_p:
+                # overlapping (e.g. antisense / read-through) gene: placed over the previous gene's range; it never edits
+                # the genome (non-coding first transcript), so the previous gene's ORF stays intact
+                ps, pe = pos[prev]
+                start = rng.randint(ps, max(ps, pe - 10))
+                pos[gi] = (start, start + glen)
+                noncoding_first.add(gi)
+                need = start + glen - p
+                if need > 0:
+                    parts.append(rand_dna(rng, need))
+                    p += need
+                    pad = rand_dna(rng, rng.randint(5, 30))
+                    parts.append(pad)
+                    p += len(pad)
+                prev = gi if pos[gi][1] > pe else prev
+                continue
             pos[gi] = (p, p + glen)
             parts.append(rand_dna(rng, glen))
             p += glen
             pad = rand_dna(rng, rng.randint(5, 30))
             parts.append(pad)
             p += len(pad)
+            prev = gi
         ref.chroms[chrom] = ''.join(parts)
     for gi, chrom, glen, strand, exons in specs:
         s, e = pos[gi]
         coding = rng.random() < coding_p
+        if gi in noncoding_first:
+            coding = False
         k = gi + 1 + id_offset
         gene = Gene(f'ENSG{k:011d}.1', chrom, s, e, strand, f'GENE{k}',
                     'protein_coding' if coding else 'lncRNA')
